@@ -74,7 +74,9 @@ pub(crate) fn float_lit_ends_in_dot(
         FloatLiteralTrailingZero::Preserve => symbol.ends_with('.') && suffix.is_none(),
         FloatLiteralTrailingZero::IfNoPostfix | FloatLiteralTrailingZero::Always => false,
         FloatLiteralTrailingZero::Never => {
-            let float_parts = parse_float_symbol(symbol).unwrap();
+            let Ok(float_parts) = parse_float_symbol(symbol) else {
+                return false;
+            };
             let has_postfix = float_parts.exponent.is_some() || suffix.is_some();
             let fractional_part_zero = float_parts.is_fractional_part_zero();
             !has_postfix && fractional_part_zero
@@ -1408,7 +1410,16 @@ fn rewrite_float_lit(
     let symbol = token_lit.symbol.as_str();
     let suffix = token_lit.suffix.as_ref().map(|s| s.as_str());
 
-    let float_parts = parse_float_symbol(symbol).unwrap();
+    // (`0b1f32`, `0o7f64`: a literal the lexer passes on as a float and the compiler rejects later
+    // is not decimal; it is left as it is)
+    let Ok(float_parts) = parse_float_symbol(symbol) else {
+        return wrap_str(
+            context.snippet(span).to_owned(),
+            context.config.max_width(),
+            shape,
+        )
+        .max_width_error(shape.width, span);
+    };
     let FloatSymbolParts {
         integer_part,
         fractional_part,
